@@ -420,7 +420,14 @@ class Inliner:
                 bound.add(n.id)
             elif isinstance(n, ast.ExceptHandler) and n.name:
                 bound.add(n.name)
-        return {n.id for n in ast.walk(g.node) if isinstance(n, ast.Name) and isinstance(n.ctx, ast.Load)} - bound
+        # annotations are never evaluated inside a function and parameter annotations do not
+        # travel with an inlined body; defaults do (they are substituted at the call site)
+        skip: set = set()
+        for n in ast.walk(g.node):
+            if isinstance(n, ast.AnnAssign):
+                skip |= {id(x) for x in ast.walk(n.annotation)}
+        roots = list(g.node.body) + [d for d in g.node.args.defaults + g.node.args.kw_defaults if d is not None]
+        return {n.id for r in roots for n in ast.walk(r) if isinstance(n, ast.Name) and isinstance(n.ctx, ast.Load) and id(n) not in skip} - bound
 
     @staticmethod
     def _reads_instance_state(f: FuncInfo) -> bool:
@@ -491,6 +498,45 @@ class Inliner:
                 return False
         return True
 
+    @staticmethod
+    def _bound_names(caller: FuncInfo) -> set:
+        """Names that are local in `caller` (or in a function enclosing it)."""
+        bound: set = set()
+        f = caller
+        while f is not None:
+            bound |= set(f.params)
+            for x in walk_own(f.node):
+                if isinstance(x, ast.Name) and isinstance(x.ctx, (ast.Store, ast.Del)):
+                    bound.add(x.id)
+                elif isinstance(x, ast.ExceptHandler) and x.name:
+                    bound.add(x.name)
+                elif isinstance(x, (ast.FunctionDef, ast.AsyncFunctionDef, ast.ClassDef)):
+                    bound.add(x.name)
+                elif isinstance(x, (ast.Import, ast.ImportFrom)):
+                    bound |= {(al.asname or al.name).split(".")[0] for al in x.names}
+            f = f.parent
+        return bound
+
+    def _globals_agree(self, g: FuncInfo, caller: FuncInfo, expr, skip: set) -> bool:
+        """The free names of `expr` (from g's body) mean the same at the call site in caller."""
+        free = {n.id for n in ast.walk(expr) if isinstance(n, ast.Name) and isinstance(n.ctx, ast.Load)} - skip
+        if free & self._bound_names(caller):
+            return False
+        gm, cm = g.module, caller.module
+        if gm is cm:
+            return True
+        for name in free:
+            if name in gm.imports:
+                if cm.imports.get(name) != gm.imports[name]:
+                    hv = cm.imports.get(name)
+                    if not (hv and hv[0] == "pkg" and gm.imports[name][0] == "pkg" and hv[2] == gm.imports[name][2]):
+                        return False
+            elif name in gm.functions or name in gm.classes or name in gm.assigns:
+                hv = cm.imports.get(name)
+                if not (hv and hv[0] == "pkg" and hv[2] == name):
+                    return False
+        return True
+
     def inline_predicates(self) -> bool:
         """Replace calls of private helpers whose whole body is `return <pure expression>`."""
         preds = {}
@@ -542,6 +588,8 @@ class Inliner:
                 if g is None or not isinstance(node.ctx, ast.Load) or g is self.func or not _simple(node.value):
                     return node
                 body = [s for s in g.node.body if not (isinstance(s, ast.Expr) and isinstance(s.value, ast.Constant))]
+                if not outer._globals_agree(g, self.func, body[0].value, {g.node.args.args[0].arg}):
+                    return node
                 expr = _Renamer({}, {g.node.args.args[0].arg: node.value}).visit(copy.deepcopy(body[0].value))
                 changed = True
                 outer.log.append(f"property {g.qualname} -> {self.func.qualname}:{node.lineno}")
@@ -573,6 +621,8 @@ class Inliner:
                 if not all(_simple(v) for v in mapping.values()):
                     return node
                 body = [s for s in g.node.body if not (isinstance(s, ast.Expr) and isinstance(s.value, ast.Constant))]
+                if not outer._globals_agree(g, self.func, body[0].value, set(mapping)):
+                    return node
                 expr = _Renamer({}, mapping).visit(copy.deepcopy(body[0].value))
                 changed = True
                 outer.log.append(f"predicate {g.qualname} -> {self.func.qualname}:{node.lineno}")
@@ -618,6 +668,31 @@ class Inliner:
                         bound.add(x.name)
                 if self._free_names(g) & bound:
                     raise NotInlinable("closure variable shadowed at the call site")
+        if g.parent is None:
+            # a global the helper reads must not be shadowed by a local of the caller
+            free = self._free_names(g)
+            bound = set(caller.params)
+            for x in walk_own(caller.node):
+                if isinstance(x, ast.Name) and isinstance(x.ctx, (ast.Store, ast.Del)):
+                    bound.add(x.id)
+                elif isinstance(x, ast.ExceptHandler) and x.name:
+                    bound.add(x.name)
+                elif isinstance(x, (ast.FunctionDef, ast.AsyncFunctionDef, ast.ClassDef)):
+                    bound.add(x.name)
+                elif isinstance(x, (ast.Import, ast.ImportFrom)):
+                    bound |= {(al.asname or al.name).split(".")[0] for al in x.names}
+            up = caller.parent
+            while up is not None:  # enclosing function scopes of a nested caller shadow globals too
+                bound |= set(up.params)
+                bound |= {x.id for x in walk_own(up.node) if isinstance(x, ast.Name) and isinstance(x.ctx, (ast.Store, ast.Del))}
+                up = up.parent
+            captured_globals = {}
+            for name in sorted(free & bound):
+                # an imported module / object can be reached under another name; anything
+                # else would need a new global and is left alone
+                captured_globals[name] = self._alias_import(caller, g, name)
+        else:
+            captured_globals = {}
         n = next(self.counter)
         prefix = f"_inl{n}_"
         a = g.node.args
@@ -660,7 +735,7 @@ class Inliner:
         for node in g.node.body and ast.walk(g.node):
             if isinstance(node, (ast.FunctionDef, ast.AsyncFunctionDef)) and node is not g.node:
                 assigned.add(node.name)
-        subst, rename, binds = {}, {}, []
+        subst, rename, binds = {}, dict(captured_globals), []
         for p_ in params:
             expr = actual[p_]
             if p_ not in assigned and _simple(expr):
@@ -776,6 +851,37 @@ class Inliner:
                 return None
             return [vals[fl] for fl in fields]
         return None
+
+    def _alias_import(self, caller: FuncInfo, g: FuncInfo, name: str) -> str:
+        """`name` is a global of the helper that a local of the caller shadows.  If it is an
+        import of the helper's module, import it into the caller's module under a fresh alias
+        and return the alias."""
+        gm, cm = g.module, caller.module
+        src = gm.imports.get(name)
+        if src is None or src[0] in ("pkg", "pkgmod"):
+            raise NotInlinable(f"name capture: {name}")
+        alias = f"_g_{name}"
+        if alias in cm.imports:
+            if cm.imports[alias] == src:
+                return alias
+            raise NotInlinable(f"name capture: {name}")
+        dotted_ = src[1]
+        if "." in dotted_:
+            m_, _, sym = dotted_.rpartition(".")
+            imp = ast.ImportFrom(module=m_, names=[ast.alias(name=sym, asname=alias)], level=0)
+        else:
+            imp = ast.Import(names=[ast.alias(name=dotted_, asname=alias)])
+        imp.lineno = imp.end_lineno = 1
+        imp.col_offset = imp.end_col_offset = 0
+        ast.fix_missing_locations(imp)
+        pos = 0
+        for i, st in enumerate(cm.tree.body):
+            if (isinstance(st, ast.Expr) and isinstance(st.value, ast.Constant) and isinstance(st.value.value, str)) or (isinstance(st, ast.ImportFrom) and st.module == "__future__"):
+                pos = i + 1
+        cm.tree.body.insert(pos, imp)
+        cm.imports[alias] = src
+        self.log.append(f"import {name} aliased as {alias} in {cm.name}")
+        return alias
 
     def _carry_imports(self, caller: FuncInfo, g: FuncInfo, stmts: list) -> None:
         """A body moved into another module keeps meaning the same globals: names of the
@@ -1345,3 +1451,15 @@ class Inliner:
                 if not owner_body:
                     owner_body.append(ast.Pass())
                 self.log.append(f"removed {g.qualname}")
+                if g.cls is None and g.parent is None:
+                    # imports of the removed function elsewhere in the package go with it
+                    for mod in self.p.modules.values():
+                        for st in list(ast.walk(mod.tree)):
+                            if isinstance(st, ast.ImportFrom) and st.level >= 1 and any(al.name == g.name for al in st.names):
+                                st.names = [al for al in st.names if al.name != g.name]
+                        for owner in ast.walk(mod.tree):
+                            for fld in ("body", "orelse", "finalbody"):
+                                blk = getattr(owner, fld, None)
+                                if isinstance(blk, list) and any(isinstance(x, ast.ImportFrom) and not x.names for x in blk):
+                                    kept = [x for x in blk if not (isinstance(x, ast.ImportFrom) and not x.names)]
+                                    setattr(owner, fld, kept or [ast.Pass()])
